@@ -342,7 +342,7 @@ func (l *bindLoader) truth(path string, api map[string]map[string]*apiEntry, pla
 			t.Kind = "other"
 		}
 		if e := api[path][name]; e != nil {
-			t.Since = e.since
+			t.Since = e.sinceFor(plat)
 			t.API = e.rec(plat)
 		}
 		tp.Objs = append(tp.Objs, t)
@@ -360,10 +360,39 @@ type apiValue struct {
 }
 
 type apiEntry struct {
-	kind    string
-	since   int
-	values  []apiValue
-	methods map[string]int // interface methods: first release that lists them
+	kind      string
+	since     int            // first release that lists the name for any platform
+	generic   int            // first release that lists it without a platform (-1: none)
+	sincePlat map[string]int // first release that lists it for a platform ("-cgo" variants folded)
+	values    []apiValue
+	methods   map[string]int // interface methods: first release that lists them
+}
+
+// apiCovered: the platforms the api files speak about ("linux-amd64", "openbsd-386", ...).
+var apiCovered = map[string]bool{}
+
+// sinceFor: the first release that declares the name on a platform.  A line without platform means
+// "on every platform the api files cover".  For a platform they do not cover nothing is known
+// about a platform-dependent name (0: taken to exist in every release; see the drift rule of the
+// harness); a name that is never listed per platform is platform-independent.
+func (e *apiEntry) sinceFor(plat string) int {
+	if !apiCovered[plat] {
+		if len(e.sincePlat) == 0 && e.generic >= 0 {
+			return e.generic
+		}
+		return 0
+	}
+	best := -1
+	if e.generic >= 0 {
+		best = e.generic
+	}
+	if r, ok := e.sincePlat[plat]; ok && (best < 0 || r < best) {
+		best = r
+	}
+	if best < 0 {
+		return 0
+	}
+	return best
 }
 
 var apiMethodRe = regexp.MustCompile(`^ interface, ([A-Za-z_][A-Za-z0-9_]*)\(`)
@@ -374,8 +403,8 @@ func (e *apiEntry) rec(plat string) *apiRec {
 		if v.plat != "" && v.plat != plat {
 			continue
 		}
-		// the latest release that states a value wins (api/except.txt lists corrected early values);
-		// a platform-specific statement beats a generic one of the same release
+		// the latest release that states a value wins (api/except.txt lists the statements that no
+		// longer hold); a platform-specific statement beats a generic one of the same release
 		if v.rel > r.valRel || (v.rel == r.valRel && v.plat != "") {
 			r.valRel, r.Num, r.Den = v.rel, v.num, v.den
 		}
@@ -394,6 +423,14 @@ func loadAPI() (map[string]map[string]*apiEntry, error) {
 		return nil, fmt.Errorf("no api files in %s", dir)
 	}
 	out := map[string]map[string]*apiEntry{}
+	// api/except.txt: statements of earlier api files that no longer hold (changed values, removals)
+	except := map[string]bool{}
+	if b, err := os.ReadFile(filepath.Join(dir, "except.txt")); err == nil {
+		for _, l := range strings.Split(string(b), "\n") {
+			except[strings.TrimSpace(l)] = true
+		}
+	}
+	issueRe := regexp.MustCompile(`\s+#\d+\s*$`)
 	for _, f := range files {
 		base := strings.TrimSuffix(filepath.Base(f), ".txt")
 		rel := 0
@@ -411,6 +448,10 @@ func loadAPI() (map[string]map[string]*apiEntry, error) {
 		sc.Buffer(make([]byte, 1<<20), 1<<24)
 		for sc.Scan() {
 			line := sc.Text()
+			if except[strings.TrimSpace(line)] {
+				continue
+			}
+			line = issueRe.ReplaceAllString(line, "")
 			if i := strings.Index(line, " //deprecated"); i >= 0 {
 				line = line[:i]
 			}
@@ -424,11 +465,22 @@ func loadAPI() (map[string]map[string]*apiEntry, error) {
 			}
 			e := out[path][name]
 			if e == nil {
-				e = &apiEntry{kind: kind, since: rel}
+				e = &apiEntry{kind: kind, since: rel, generic: -1, sincePlat: map[string]int{}}
 				out[path][name] = e
 			}
 			if rel < e.since {
 				e.since = rel
+			}
+			if plat == "" {
+				if e.generic < 0 || rel < e.generic {
+					e.generic = rel
+				}
+			} else {
+				pl := strings.TrimSuffix(plat, "-cgo")
+				apiCovered[pl] = true
+				if old, ok := e.sincePlat[pl]; !ok || rel < old {
+					e.sincePlat[pl] = rel
+				}
 			}
 			if kind == "type" {
 				if mm := apiMethodRe.FindStringSubmatch(rest); mm != nil {
@@ -1160,7 +1212,33 @@ func bindCollect(repo, tier string) (*bindCollection, error) {
 
 // ---------------------------------------------------------------- Coq rendering
 
+// bindIntern, when set, replaces every string by a reference to a per-file definition (the same
+// text is then elaborated once by Coq instead of once per occurrence; the data is unchanged).
+var bindIntern *bindStrTable
+
+type bindStrTable struct {
+	idx   map[string]int
+	order []string
+}
+
+func (t *bindStrTable) ref(x string) string {
+	i, ok := t.idx[x]
+	if !ok {
+		i = len(t.order)
+		t.idx[x] = i
+		t.order = append(t.order, x)
+	}
+	return fmt.Sprintf("x%d", i)
+}
+
 func bindStr(x string) string {
+	if bindIntern != nil {
+		return bindIntern.ref(x)
+	}
+	return bindStrLit(x)
+}
+
+func bindStrLit(x string) string {
 	plain := true
 	for i := 0; i < len(x); i++ {
 		if x[i] < 32 || x[i] > 126 {
@@ -1371,14 +1449,27 @@ func (g *bindGroup) weight() int {
 const bindGenHeader = "(* generated by vh tr-bind from stdlib/** of the repository, go/types on $GOROOT/src and $GOROOT/api; data only; do not edit *)\n" +
 	"From Verif Require Import Lib.Str Bind.Literal Bind.Model.\nOpen Scope Z_scope.\n\n"
 
+var bindTextMu sync.Mutex
+
 func bindShardText(gs []*bindGroup) string {
-	var b strings.Builder
-	b.WriteString(bindGenHeader)
+	bindTextMu.Lock()
+	defer bindTextMu.Unlock()
+	var body strings.Builder
+	bindIntern = &bindStrTable{idx: map[string]int{}}
 	names := make([]string, len(gs))
 	for i, g := range gs {
-		g.coq(&b)
+		g.coq(&body)
 		names[i] = g.coqName()
 	}
+	tab := bindIntern
+	bindIntern = nil
+	var b strings.Builder
+	b.WriteString(bindGenHeader)
+	for i, x := range tab.order {
+		fmt.Fprintf(&b, "Definition x%d := %s.\n", i, bindStrLit(x))
+	}
+	b.WriteString("\n")
+	b.WriteString(body.String())
 	fmt.Fprintf(&b, "Definition groups : list group := %s.\n", coqList(names))
 	return b.String()
 }
